@@ -110,8 +110,11 @@ Agree == \A cm, sm \in Modes :
 ASSUME Agree
 
 (* ---- C13: Dial ---- *)
-SubOK(requested, got) == got = "" \/ \E i \in 1..Len(requested) : requested[i] = got
-SubOpen(requested, got) == got # "" /\ ~SubOK(requested, got) /\ \E i \in 1..Len(requested) : EqFold(requested[i], got)
+(* what the response selects: the header's (first line's) value as a whole -- "b, a" names no requested protocol, and of the two *)
+(* lines "b" / "a" (written "b|a") the first is the selection                                                                  *)
+Selected(sub) == IF sub = "b|a" THEN "b" ELSE sub
+SubOK(requested, sub) == LET got == Selected(sub) IN got = "" \/ \E i \in 1..Len(requested) : requested[i] = got
+SubOpen(requested, sub) == LET got == Selected(sub) IN got # "" /\ ~SubOK(requested, sub) /\ \E i \in 1..Len(requested) : EqFold(requested[i], got)
 VerifyResponse(resp, requested, mode) ==
   IF resp.status # 101 \/ ~HasToken(resp.conn, "upgrade") \/ ~HasToken(resp.upg, "websocket") \/ resp.accept # "correct"
   THEN "reject"
